@@ -621,22 +621,51 @@ pub fn spawn_with_input(args: &[&str], input: &str, timeout_s: u64) -> Result<St
     Ok(out)
 }
 
-pub fn run_plan(plan: &Plan, full: bool) -> Result<RunResult, String> {
+/// Set after three stalled runs: the rest of the batch runs with atomic operations from the start.
+static FORCE_ATOMIC: std::sync::atomic::AtomicBool = std::sync::atomic::AtomicBool::new(false);
+pub static STALLED_RUNS: std::sync::atomic::AtomicU64 = std::sync::atomic::AtomicU64::new(0);
+
+/// The same plan with operations made atomic: switches at operation boundaries only, so that no lock
+/// of the system under test can be held by a parked client.
+fn atomic_variant(plan: &Plan) -> Plan {
+    let mut p = plan.clone();
+    p.policy = Policy::RunToCompletion;
+    p.schedule = None;
+    p
+}
+
+fn run_plan_once(plan: &Plan, full: bool, timeout_s: u64) -> Result<RunResult, String> {
     let input = serde_json::to_string(plan).unwrap();
     let args: Vec<&str> = if full { vec!["run", "--full"] } else { vec!["run"] };
-    let mut last = String::new();
-    for attempt in 0..2 {
-        match spawn_with_input(&args, &input, 60) {
-            Ok(out) => return serde_json::from_str::<RunResult>(out.trim()).map_err(|e| format!("bad run output: {} ({})", e, out.chars().take(300).collect::<String>())),
-            Err(e) => {
-                last = e;
-                if last != "timeout" || attempt == 1 {
-                    break;
-                }
-            }
-        }
+    let out = spawn_with_input(&args, &input, timeout_s)?;
+    serde_json::from_str::<RunResult>(out.trim()).map_err(|e| format!("bad run output: {} ({})", e, out.chars().take(300).collect::<String>()))
+}
+
+/// Err("timeout") only if the run also stalls with atomic operations; Err("crashed: …") if the run
+/// process was killed by a signal (twice).
+pub fn run_plan(plan: &Plan, full: bool) -> Result<RunResult, String> {
+    use std::sync::atomic::Ordering;
+    if FORCE_ATOMIC.load(Ordering::Relaxed) && plan.schedule.is_none() {
+        return run_plan_once(&atomic_variant(plan), full, 60);
     }
-    Err(last)
+    match run_plan_once(plan, full, 20) {
+        Ok(r) => Ok(r),
+        Err(e) if e == "timeout" => {
+            // a client blocked inside the system under test while another held the baton: that is a
+            // stall of the simulation, not an observation; re-run with atomic operations
+            let n = STALLED_RUNS.fetch_add(1, Ordering::Relaxed) + 1;
+            if n >= 3 {
+                FORCE_ATOMIC.store(true, Ordering::Relaxed);
+            }
+            run_plan_once(&atomic_variant(plan), full, 60)
+        }
+        Err(e) if e.contains("signal") => match run_plan_once(plan, full, 20) {
+            Ok(r) => Ok(r),
+            Err(e2) if e2.contains("signal") => Err(format!("crashed: {}", e2)),
+            Err(e2) => Err(e2),
+        },
+        Err(e) => Err(e),
+    }
 }
 
 pub fn run_cold(req: &ColdReq) -> Result<ColdRes, String> {
@@ -1130,11 +1159,20 @@ pub fn judge(plan: &Plan, r: &RunResult, table: &ColdTable) -> Vec<Mismatch> {
 // ---------------------------------------------------------------------------------------------
 // minimisation
 
-fn still_fails(plan: &Plan, table: &ColdTable, class: &str, kind: &str) -> Option<(RunResult, Mismatch)> {
-    let r = run_plan(plan, false).ok()?;
-    let ms = judge(plan, &r, table);
-    let m = ms.into_iter().find(|m| m.class == class && (m.kind == kind || class != "obs-differs"))?;
-    Some((r, m))
+fn crash_mismatch(e: &str) -> Mismatch {
+    Mismatch { class: "run-crashed".into(), c: 0, j: 0, kind: "process".into(), query: String::new(), content: String::new(), expected: Some("every cold process of the plan's keys completed".into()), observed: Some(e.to_string()), detail: format!("the run process was killed ({}), while the same calls made cold complete", e) }
+}
+
+fn still_fails(plan: &Plan, table: &ColdTable, class: &str, kind: &str) -> Option<(Option<RunResult>, Mismatch)> {
+    match run_plan(plan, false) {
+        Ok(r) => {
+            let ms = judge(plan, &r, table);
+            let m = ms.into_iter().find(|m| m.class == class && (m.kind == kind || class != "obs-differs"))?;
+            Some((Some(r), m))
+        }
+        Err(e) if e.starts_with("crashed") && class == "run-crashed" => Some((None, crash_mismatch(&e))),
+        Err(_) => None,
+    }
 }
 
 fn remove_op(plan: &Plan, c: usize, from: usize, to: usize) -> Plan {
@@ -1307,7 +1345,7 @@ fn replay_body(plan: &Plan, m: &Mismatch, r: &RunResult, table: &ColdTable, orig
         }
     }
     let mut p = plan.clone();
-    p.schedule = Some(r.schedule.clone());
+    p.schedule = if r.schedule.is_empty() { None } else { Some(r.schedule.clone()) };
     json!({
         "property": "C12",
         "kind": "c12-run",
@@ -1402,6 +1440,13 @@ pub fn drive(tier_name: &str, seed: u64, workers: usize) -> i32 {
         for ((i, plan, _), res) in plans.iter().zip(results) {
             let r = match res {
                 Ok(r) => r,
+                Err(e) if e.starts_with("crashed") => {
+                    n_violating_runs += 1;
+                    if first_violation.is_none() {
+                        first_violation = Some((*i, plan.clone(), crash_mismatch(&e)));
+                    }
+                    continue;
+                }
                 Err(e) => {
                     harness_errors.push(format!("run {}: {}", i, e));
                     continue;
@@ -1516,6 +1561,7 @@ pub fn drive(tier_name: &str, seed: u64, workers: usize) -> i32 {
                     }
                 }
             }
+            Err(e) if e.starts_with("crashed") => (RunResult { fingerprint: 0, ops: vec![], sched: SchedStats::default(), schedule: String::new(), probes: Probes::default(), integrity_failures: vec![], log: vec![] }, crash_mismatch(&e)),
             Err(e) => {
                 harness_errors.push(format!("re-recording the minimised plan: {}", e));
                 (RunResult { fingerprint: 0, ops: vec![], sched: SchedStats::default(), schedule: String::new(), probes: Probes::default(), integrity_failures: vec![], log: vec![] }, m.clone())
@@ -1525,8 +1571,11 @@ pub fn drive(tier_name: &str, seed: u64, workers: usize) -> i32 {
         let p = report::write_replay("C12", &format!("seed{}-run{}", seed, i), &body);
         // replay check in a fresh process following the recorded schedule
         let mut follow = min.clone();
-        follow.schedule = Some(rfull.schedule.clone());
-        let reproduced = run_plan(&follow, true).ok().map(|r| !judge(&follow, &r, &table).is_empty() && !r.sched.diverged).unwrap_or(false);
+        follow.schedule = if rfull.schedule.is_empty() { None } else { Some(rfull.schedule.clone()) };
+        let reproduced = match run_plan(&follow, true) {
+            Ok(r) => !judge(&follow, &r, &table).is_empty() && !r.sched.diverged,
+            Err(e) => e.starts_with("crashed") && mfull.class == "run-crashed",
+        };
         println!(
             "violation class={} run={} clients={} ops={} (minimised from {}): op {} of client {} ({}) query={} expected={} observed={} replay_reproduces={}",
             mfull.class,
@@ -1567,6 +1616,10 @@ pub fn drive(tier_name: &str, seed: u64, workers: usize) -> i32 {
         exit = 2;
     }
 
+    let probe_state = std::env::var("VERIF_PROBE").unwrap_or_else(|_| "not run".into());
+    if probe_state == "failed" {
+        violations += 1;
+    }
     let wall = t0.elapsed().as_secs_f64();
     let site_names = site_names();
     let named = |v: &Vec<u64>| -> BTreeMap<String, u64> { v.iter().enumerate().filter(|(_, n)| **n > 0).map(|(i, n)| (site_names.get(&(i as u32)).cloned().unwrap_or(format!("site{}", i)), *n)).collect() };
@@ -1592,7 +1645,9 @@ pub fn drive(tier_name: &str, seed: u64, workers: usize) -> i32 {
         "clients_per_run": clients_hist,
         "probes": probes_sum,
         "first_library_call_of_process_by_kind": first_kinds,
+        "send_sync_probe_crate": probe_state,
         "runs_that_hit_the_step_cap": cap_hits,
+        "runs_that_stalled_and_were_re_run_with_atomic_operations": STALLED_RUNS.load(std::sync::atomic::Ordering::Relaxed),
         "determinism": {"runs_re_executed_in_a_second_process_at_3_workers": determinism_checked, "fingerprint_mismatches": determinism_mismatch.len()},
         "runs_per_hour": if wall_runs > 0.0 { (done as f64 / wall_runs * 3600.0) as u64 } else { 0 },
         "simulated_time": format!("{} scheduler steps (the system under test reads no clock)", agg_steps),
@@ -1726,6 +1781,11 @@ pub fn replay(body: &Value) -> i32 {
                         println!("replay: every operation equals its cold result on this tree");
                         0
                     }
+                }
+                Err(e) if e.starts_with("crashed") => {
+                    println!("replayed: the run process was killed — {}", e);
+                    println!("VIOLATION property=C12 replay={}", path);
+                    1
                 }
                 Err(e) => {
                     eprintln!("harness error: {}", e);
